@@ -188,7 +188,7 @@ def build(repo, workdir, props):
             E.functions.append("Modifiers::%s" % name)
             Q.append(("C11", "predicate_%s" % name, ["(not (= %s %s))" % (t, ref)], ["m_" + x for x in MODS]))
 
-    need_layouts = any(p in props for p in ("C09", "C10", "C11", "C16", "C17"))
+    need_layouts = any(p in props for p in ("C03", "C09", "C10", "C11", "C12", "C15", "C16", "C17"))
     if need_layouts:
         for ty in layouts:
             E.layout(ty)
@@ -239,6 +239,64 @@ def build(repo, workdir, props):
             c_iii = "(=> (not %s) %s)" % (letter, same_modes)
             c_i = "(=> (and %s %s %s) (and (= %s %s) (= %s (bvsub %s #x00000060))))" % (letter, ctrl, noalt, lcall(ty, "tag", hv=MAP), UNI, lcall(ty, "uni", hv=MAP), p_uni)
             Q.append(("C09", "ctrl_mapping_%s" % ty, ["(bvult k %s)" % bvc(nkeys, 16), "(not (and %s %s %s %s))" % (c_i, c_ii, c_iii, c_iv)], ["k"] + ["m_" + x for x in MODS]))
+
+    if "C12" in props:
+        E.defs.append("(declare-const ch (_ BitVec 32))")
+        init = dict(lshift="false", rshift="false", lctrl="false", rctrl="false", numlock="true", capslock="false", lalt="false", ralt="false", rctrl2="false")
+        levels = [init, dict(init, lshift="true"), dict(init, ralt="true")]
+        for ty in layouts:
+            none_types = []
+            for i in range(nkeys):
+                for lv in levels:
+                    kk = bvc(i, 16)
+                    none_types.append("(not (and (= %s %s) (= %s ch)))" % (lcall(ty, "tag", kv=kk, over=lv), UNI, lcall(ty, "uni", kv=kk, over=lv)))
+            Q.append(("C12", "every_ascii_char_typable_%s" % ty, ["(bvuge ch #x00000020)", "(bvule ch #x0000007e)", "(bvult h %s)" % bvc(2, 16)] + none_types, ["ch", "h"]))
+
+    if "C15" in props:
+        digits = {"Numpad0": ("0", "Insert"), "Numpad1": ("1", "End"), "Numpad2": ("2", "ArrowDown"), "Numpad3": ("3", "PageDown"), "Numpad4": ("4", "ArrowLeft"),
+                  "Numpad5": ("5", None), "Numpad6": ("6", "ArrowRight"), "Numpad7": ("7", "Home"), "Numpad8": ("8", "ArrowUp"), "Numpad9": ("9", "PageUp")}
+        fixed = {"NumpadDivide": "/", "NumpadMultiply": "*", "NumpadSubtract": "-", "NumpadAdd": "+", "Escape": "\x1b", "Backspace": "\x08", "Tab": "\t",
+                 "Return": "\n", "Delete": "\x7f", "Spacebar": " "}
+        for ty in layouts:
+            def uni_is(ch):
+                return "(and (= %s %s) (= %s %s))" % (lcall(ty, "tag"), UNI, lcall(ty, "uni"), bvc(ord(ch), 32))
+
+            def raw_is(kn):
+                return "(and (= %s %s) (= %s %s))" % (lcall(ty, "tag"), RAW, lcall(ty, "raw"), E.key(kn))
+            cl = []
+            for kn, (d, al) in digits.items():
+                off = raw_is(al) if al else "(or %s %s)" % (uni_is("5"), raw_is("Numpad5"))
+                cl.append("(=> (= k %s) (ite m_numlock %s %s))" % (E.key(kn), uni_is(d), off))
+            for kn, ch in fixed.items():
+                cl.append("(=> (= k %s) %s)" % (E.key(kn), uni_is(ch)))
+            cl.append("(=> (= k %s) %s)" % (E.key("NumpadEnter"), lsame(ty, ("k", None, "h", "m"), (E.key("Return"), None, "h", "m"))))
+            dec = {"No105Key": [","], "FiSe105Key": [","], "De105Key": [",", "."]}.get(ty, ["."])
+            cl.append("(=> (= k %s) (ite m_numlock (or %s) %s))" % (E.key("NumpadPeriod"), " ".join(uni_is(x) for x in dec), uni_is("\x7f")))
+            Q.append(("C15", "numpad_and_editing_keys_%s" % ty, dom + ["(not (and %s))" % " ".join(cl)], gv))
+
+    if "C03" in props:
+        lay = json.load(open(os.path.join(gen.VERIF, "oracle/layouts.json")))["layouts"]
+        for ty in layouts:
+            cells = lay[ty]
+
+            def member(level, uni_t):
+                alts = []
+                for kn in sorted(cells):
+                    if kn in E.keys and len(cells[kn]) > level and cells[kn][level]:
+                        alts.append("(and (= k %s) (or %s))" % (E.key(kn), " ".join("(= %s %s)" % (uni_t, bvc(ord(c), 32)) for c in cells[kn][level])))
+                return "(or %s)" % " ".join(alts + ["false"])
+
+            def has(level):
+                return "(or %s)" % " ".join(["(= k %s)" % E.key(kn) for kn in sorted(cells) if kn in E.keys and len(cells[kn]) > level and cells[kn][level]] + ["false"])
+            pre = dom + ["(not m_capslock)", "(not (and (= h %s) %s))" % (MAP, r_ctrl("m"))]
+            tag, uni = lcall(ty, "tag"), lcall(ty, "uni")
+            for level, cond in ((0, "(and (not %s) (not %s))" % (r_shift("m"), r_altgr("m"))), (1, "(and %s (not %s))" % (r_shift("m"), r_altgr("m")))):
+                Q.append(("C03", "level%d_chars_%s" % (level, ty), pre + [cond, has(level), "(not (and (= %s %s) %s))" % (tag, UNI, member(level, uni))], gv))
+            noalt = dict(lalt="false", ralt="false")
+            differs = "(not %s)" % lsame(ty, ("k", None, "h", "m"), ("k", noalt, "h", "m"))
+            Q.append(("C03", "altgr_chars_%s" % ty, pre + ["(and (not %s) %s)" % (r_shift("m"), r_altgr("m")), differs,
+                      "(not (and (= %s %s) %s))" % (tag, UNI, member(2, uni))], gv))
+
     if "C17" in props:
         variants = enums["AnyLayout"]
         for i, v in enumerate(variants):
